@@ -531,6 +531,23 @@ class Rew(object):
             return v
         return SymReal(self._apply(term_of(v)))
 
+    def powers(self, cx, tag, *values):
+        """new stage: every power with a non-constant exponent (cross sections sigma0 rho**a T**b) occurring in `values`
+        becomes a free POSITIVE variable -- the balances do not depend on the power laws, only on sigma_t != 0.
+        Returns the positivity hypothesis for `when'."""
+        if not self.sym:
+            return True
+        self.stage()
+        found = []
+        for v in values:
+            for n in T.postorder(self._apply(term_of(v), len(self.stages) - 1)):
+                if n.op == 'pow' and n.args[1].op != 'const' and n not in self.stages[-1]:
+                    self.stages[-1][n] = T.var('pw_%s_%d' % (tag, len(found)))
+                    found.append(self.stages[-1][n])
+        if not found:
+            return True
+        return SymBool(T.land(*[T.gt(f, T.ZERO) for f in found]))
+
 
 def near(cx, a, b, tol=1e-9):
     """a == b as a precondition: SymBool in symbolic mode, tolerance test on floats"""
@@ -732,28 +749,31 @@ class Flux(Obligation):
             # against the downstream end node (structural), the end node against the upstream value as an identity in the
             # energy residual of the real momentum_and_energy (res_en == 0 is the fsolve contract).
             flux, fsc = total_energy_flux(i)
+            j = None if i in (0, 5) else (0 if i < 3 else 5)
+            fluxj = side(total_energy_flux(j)[0]) if j is not None else None
+            Re = Rew(cx, Rn)
+            oke = okr & Re.powers(cx, 'n%d' % i, flux, Fr, Er, *([fluxj] if j is not None else []))
             if self.sn:
                 # transported Eddington factor: the flux is constant on each side of M = 1 by construction; equality of the
                 # two constants with the analytic upstream value needs f == 1/3 in both end states (a converged transport
                 # solution): outside the claim
-                if i not in (0, 5):
-                    j = 0 if i < 3 else 5
+                if j is not None:
                     cx.eq('total energy flux (with radiation flux) at the %s node == at the %s end node' % (nm, NODE_NAMES[j]),
-                          Rn(flux), side(total_energy_flux(j)[0]), when=okr, scale=fsc)
+                          Re(flux), Re(fluxj), when=oke, scale=fsc)
             elif i < 3:
-                cx.eq('total energy flux (with radiation flux) at the %s node == upstream value' % nm, Rn(flux), en_up,
-                      when=okr, scale=fsc)
+                cx.eq('total energy flux (with radiation flux) at the %s node == upstream value' % nm, Re(flux), en_up,
+                      when=oke, scale=fsc)
             elif i < 5:
                 cx.eq('total energy flux (with radiation flux) at the %s node == at the downstream end node' % nm,
-                      Rn(flux), R5(total_energy_flux(5)[0]), when=okr, scale=fsc)
+                      Re(flux), Re(fluxj), when=oke, scale=fsc)
             else:
                 cx.eq('(total energy flux downstream - upstream) * rho1^2 == M0 * energy residual (fsolve contract: == 0)',
-                      (R5(flux) - en_up) * rho1 * rho1, M0 * R0(cx['res_en']) if cx.symbolic else 0.0, when=okP,
+                      (Re(flux) - en_up) * rho1 * rho1, M0 * R0(cx['res_en']) if cx.symbolic else 0.0, when=oke,
                       scale=sc(cx, en_up * rho1 * rho1))
             if i in (0, 5) and not self.sn:
                 cx.eq('%s state in radiative equilibrium: T_rad == T_mat' % nm, Rn(Tr), Rn(Tm), when=okr)
-                cx.eq('%s state in radiative equilibrium: radiation flux == (4/3) beta Er' % nm, Rn(Fr * C0 * 3),
-                      Rn(4 * u * Er), when=okr)
+                cx.eq('%s state in radiative equilibrium: radiation flux == (4/3) beta Er' % nm, Re(Fr * C0 * 3),
+                      Re(4 * u * Er), when=oke)
             if i == 0:
                 cx.eq('upstream density == 1 (rho0 after scaling)', R0(rho), 1, when=okP)
                 cx.eq('upstream speed == M0 (M0 a0 after scaling)', R0(u), M0, when=okP)
